@@ -192,6 +192,8 @@ fn api(tag: u8, n: i64) {
 enum Wr {
     L2(LZMA2Writer<Vec<u8>>),
     L1(LZMAWriter<Vec<u8>>),
+    Lzip(LZIPWriter<Vec<u8>>),
+    Xz(XZWriter<'static, Vec<u8>>),
 }
 
 /// One encoder history. Returns the compressed bytes or an error text.
@@ -206,6 +208,16 @@ fn encode_once(j: &Job, data: &[u8], preset: &Option<Vec<u8>>) -> std::result::R
             LZMAWriter::new(Vec::new(), &lo, false, j.end_marker, declared)
         };
         Wr::L1(r.map_err(|e| format!("new: {e}"))?)
+    } else if j.writer == "lzip" {
+        let mut o = LZIPOptions::with_preset(0);
+        o.lzma_options = lo;
+        o.member_size = j.chunk_size.and_then(NonZeroU64::new);
+        Wr::Lzip(LZIPWriter::new(Vec::new(), o))
+    } else if j.writer == "xz" {
+        let mut o = XZOptions::default();
+        o.lzma_options = lo;
+        o.block_size = j.chunk_size.and_then(NonZeroU64::new);
+        Wr::Xz(XZWriter::new(Vec::new(), o).map_err(|e| format!("new: {e}"))?)
     } else {
         let mut o2 = LZMA2Options::default();
         o2.lzma_options = lo;
@@ -227,6 +239,8 @@ fn encode_once(j: &Job, data: &[u8], preset: &Option<Vec<u8>>) -> std::result::R
                 let r = match &mut w {
                     Wr::L1(w) => w.write_all(&data[off..off + n]),
                     Wr::L2(w) => w.write_all(&data[off..off + n]),
+                    Wr::Lzip(w) => w.write_all(&data[off..off + n]),
+                    Wr::Xz(w) => w.write_all(&data[off..off + n]),
                 };
                 r.map_err(|e| format!("write: {e}"))?;
                 off += n;
@@ -236,6 +250,8 @@ fn encode_once(j: &Job, data: &[u8], preset: &Option<Vec<u8>>) -> std::result::R
                 let r = match &mut w {
                     Wr::L1(w) => w.flush(),
                     Wr::L2(w) => w.flush(),
+                    Wr::Lzip(w) => w.flush(),
+                    Wr::Xz(w) => w.flush(),
                 };
                 r.map_err(|e| format!("flush: {e}"))?;
             }
@@ -247,6 +263,8 @@ fn encode_once(j: &Job, data: &[u8], preset: &Option<Vec<u8>>) -> std::result::R
     let out = match w {
         Wr::L1(w) => w.finish(),
         Wr::L2(w) => w.finish(),
+        Wr::Lzip(w) => w.finish(),
+        Wr::Xz(w) => w.finish(),
     }
     .map_err(|e| format!("finish: {e}"))?;
     vw::flush();
@@ -287,6 +305,12 @@ fn decode_all(j: &Job, comp: &[u8], preset: &Option<Vec<u8>>, expect: &[u8]) -> 
             let mut r = LZMAReader::new(comp, size, o.lc, o.lp, o.pb, o.dict, pd).map_err(|e| format!("new: {e}"))?;
             drain!(r);
         }
+    } else if j.writer == "lzip" {
+        let mut r = LZIPReader::new(comp).map_err(|e| format!("new: {e}"))?;
+        drain!(r);
+    } else if j.writer == "xz" {
+        let mut r = XZReader::new(comp, false);
+        drain!(r);
     } else {
         let mut r = LZMA2Reader::new(comp, j.opt.dict, pd);
         drain!(r);
@@ -503,7 +527,7 @@ pub fn run_job(j: &Job) -> Value {
     let mut first_diff: i64 = -1;
     if let (Some(c), true) = (&first, outcome == "ok") {
         m.insert("clen".into(), json!(c.len()));
-        if j.writer != "lzma1" {
+        if j.writer == "lzma2" {
             m.insert("census".into(), lzma2_census(c));
         }
         if j.decode {
@@ -532,7 +556,7 @@ pub fn run_job(j: &Job) -> Value {
     // C15, decoder side: hostile variants of the stream (shortened chunk sizes make the range decoder run past
     // the end of the chunk buffer; flipped payload bytes; truncation) are decoded with the monitor on
     let mut mut_stats = json!(null);
-    if let (Some(c), true) = (&first, j.mutations > 0 && j.writer != "lzma1") {
+    if let (Some(c), true) = (&first, j.mutations > 0 && j.writer == "lzma2") {
         let mut rng = gen::Rng::new(j.mut_seed ^ 0x5EED);
         let (mut ok, mut err, mut pan) = (0u32, 0u32, 0u32);
         let mut first_panic = String::new();
